@@ -124,6 +124,10 @@ let scenario (toks : ostring list) : ostring =
            let ver = if v = "-" then None else Some (coq_string (unhex v)) in
            ops (XOp (OAdd (coq_string (unhex a), { dh_version = ver; dh_data = nat_of_int (ioi d) },
                            nat_of_int (ioi h), md = "1")) :: acc) r
+         | "AB" :: a :: v :: d :: h :: md :: r ->
+           let ver = if v = "-" then None else Some (coq_string (unhex v)) in
+           ops (XOp (OAddBlocked (coq_string (unhex a), { dh_version = ver; dh_data = nat_of_int (ioi d) },
+                                  nat_of_int (ioi h), md = "1")) :: acc) r
          | "G" :: a :: r -> ops (XOp (OGet (coq_string (unhex a))) :: acc) r
          | "R" :: a :: r -> ops (XOp (ORemove (coq_string (unhex a))) :: acc) r
          | "L" :: r -> ops (XOp OList :: acc) r
@@ -143,6 +147,7 @@ let scenario (toks : ostring list) : ostring =
             | Some (BAdd (Added false)) -> add "added:kept"
             | Some (BAdd ExistingSource) -> add "existing"
             | Some (BAdd Internal) -> add "internal"
+            | Some (BAdd WriteFailed) -> add "writefailed"
             | Some (BGet None) -> add "unknown"
             | Some (BGet (Some s)) -> add ("source:" ^ src s)
             | Some (BRemove true) -> add "removed"
